@@ -426,7 +426,11 @@ func (p *printer) isInlinedEnumNumber(expr js_ast.Expr) bool {
 }
 
 func (p *printer) printClauseAlias(loc logger.Loc, alias string) {
-	if js_ast.IsIdentifier(alias) {
+	// Note: An alias that can't be represented as an identifier in the configured
+	// target environment can still be printed as a string
+	if js_ast.IsIdentifier(alias) && (!p.options.ASCIIOnly ||
+		!p.options.UnsupportedFeatures.Has(compat.UnicodeEscapes) ||
+		!helpers.ContainsNonBMPCodePoint(alias)) {
 		p.printSpaceBeforeIdentifier()
 		p.addSourceMapping(loc)
 		p.printIdentifier(alias)
